@@ -1209,3 +1209,33 @@ func (g *wgen) next() wcmd {
 		return g.misc()
 	}
 }
+
+// corpusWide: a fixed history that exercises the two repaired peering restorers on every run: two
+// peerings written in the reverse of their name order (so the last peering in name order is not
+// the last written: e510f68), the second one dialing with an established stream secret (2c60efb),
+// and a trust bundle for each, again in reverse name order.
+func corpusWide() []wcmd {
+	mk := func(idx uint64, kind, desc string, data []byte) wcmd {
+		return wcmd{Idx: idx, Kind: kind, Desc: desc, Data: hex.EncodeToString(data)}
+	}
+	p2 := &pbpeering.PeeringWriteRequest{
+		Peering: &pbpeering.Peering{ID: uni.peerIDs[1], Name: uni.peers[1], State: pbpeering.PeeringState_PENDING},
+		SecretsRequest: &pbpeering.SecretsWriteRequest{PeerID: uni.peerIDs[1], Request: &pbpeering.SecretsWriteRequest_GenerateToken{
+			GenerateToken: &pbpeering.SecretsWriteRequest_GenerateTokenRequest{EstablishmentSecret: uni.secretIDs[0]}}}}
+	p1 := &pbpeering.PeeringWriteRequest{
+		Peering: &pbpeering.Peering{ID: uni.peerIDs[0], Name: uni.peers[0], State: pbpeering.PeeringState_ESTABLISHING,
+			PeerID: "dddddddd-0000-0000-0000-000000000000", PeerServerName: "server.dc2.peer", PeerServerAddresses: []string{"198.51.100.1:8502"}},
+		SecretsRequest: &pbpeering.SecretsWriteRequest{PeerID: uni.peerIDs[0], Request: &pbpeering.SecretsWriteRequest_Establish{
+			Establish: &pbpeering.SecretsWriteRequest_EstablishRequest{ActiveStreamSecret: uni.secretIDs[1]}}}}
+	tb := func(name string) *pbpeering.PeeringTrustBundleWriteRequest {
+		return &pbpeering.PeeringTrustBundleWriteRequest{PeeringTrustBundle: &pbpeering.PeeringTrustBundle{
+			TrustDomain: name + ".consul", PeerName: name, RootPEMs: []string{"pem-a"}, ExportedPartition: "default"}}
+	}
+	return []wcmd{
+		mk(2, "peering:write", "peering write peer2 (accepting, establishment secret)", mustEncodeProto(structs.PeeringWriteType, p2)),
+		mk(4, "peering:write", "peering write peer1 (dialing, established stream secret)", mustEncodeProto(structs.PeeringWriteType, p1)),
+		mk(6, "peering:trust-bundle-write", "peering trust-bundle write peer2", mustEncodeProto(structs.PeeringTrustBundleWriteType, tb(uni.peers[1]))),
+		mk(8, "peering:trust-bundle-write", "peering trust-bundle write peer1", mustEncodeProto(structs.PeeringTrustBundleWriteType, tb(uni.peers[0]))),
+		mk(9, "kvs:set", "kvs set key=\"a\"", mustEncode(structs.KVSRequestType, &structs.KVSRequest{Datacenter: "dc1", Op: api.KVSet, DirEnt: structs.DirEntry{Key: "a", Value: []byte{1}}})),
+	}
+}
